@@ -629,3 +629,25 @@ Proof.
   destruct (server_flight N toy_pub toy_dh toy_kem_encap 23 _ 5 []) as [[sd ss]|] eqn:SF; [|vm_compute in SF; discriminate].
   specialize (B sd ss eq_refl). vm_compute in SF. inversion SF; subst. vm_compute in B. discriminate.
 Qed.
+
+(* ---- fingerprinted copies: every non-GREASE share of an imported key_share list is generated per connection ---- *)
+Lemma import_generated wire k :
+  In k (import_shares wire) -> is_grease (ks_group k) = true \/ generated k = true.
+Proof.
+  unfold import_shares. intros H. apply in_map_iff in H as (x & <- & _). unfold import_share.
+  destruct (is_grease (ks_group x)) eqn:G; simpl.
+  - left. reflexivity.
+  - right. unfold generated. simpl. rewrite G. reflexivity.
+Qed.
+
+Lemma import_groups wire :
+  map ks_group (filter generated (import_shares wire)) = map ks_group (filter (fun k => negb (is_grease (ks_group k))) wire).
+Proof.
+  induction wire as [|x l IH]; [reflexivity|].
+  change (import_shares (x :: l)) with (import_share x :: import_shares l).
+  cbn [filter]. unfold import_share. destruct (is_grease (ks_group x)) eqn:G.
+  - assert (E : generated (mkKS GREASE_PLACEHOLDER (ks_data x)) = false) by reflexivity.
+    rewrite E. cbn [negb]. exact IH.
+  - assert (E : generated (mkKS (ks_group x) []) = true) by (unfold generated; cbn [ks_group ks_data]; rewrite G; reflexivity).
+    rewrite E. cbn [negb map ks_group]. f_equal. exact IH.
+Qed.
